@@ -24,8 +24,35 @@ type refEntry struct {
 	stored  int // operation index of the store that produced this entry
 }
 
+// the cache under test: the generic Cache, or the TokenCache wrapper (claims maps as values, its own key derivation)
+type cacheAPI interface {
+	Set(k string, v interface{}, ttl time.Duration)
+	Get(k string) (interface{}, bool)
+	Delete(k string)
+	Cleanup()
+	Close()
+}
+
+type tokenCacheAPI struct{ tc *oidc.TokenCache }
+
+func (a tokenCacheAPI) Set(k string, v interface{}, ttl time.Duration) {
+	a.tc.Set(k, map[string]interface{}{"v": v}, ttl)
+}
+func (a tokenCacheAPI) Get(k string) (interface{}, bool) {
+	cl, ok := a.tc.Get(k)
+	if !ok {
+		return nil, false
+	}
+	return cl["v"], true
+}
+func (a tokenCacheAPI) Delete(k string) { a.tc.Delete(k) }
+func (a tokenCacheAPI) Cleanup()        { a.tc.Cleanup() }
+func (a tokenCacheAPI) Close()          {} // (no Close in the API: its clean-up goroutine lives as long as the process)
+
 type cacheRun struct {
-	c        *oidc.Cache
+	c        cacheAPI
+	raw      *oidc.Cache // the generic cache itself when it is the one under test (snapshot hook), else nil
+	snap     bool        // the snapshot hook is available for this run
 	cap      int
 	t0       time.Time
 	nextTick time.Duration
@@ -42,13 +69,25 @@ type cacheRun struct {
 func newCacheRun(cap int) *cacheRun {
 	r := &cacheRun{cap: cap, ref: map[string]*refEntry{}, everSet: map[string]bool{}, nextTick: 5 * time.Minute}
 	if hooksOn {
-		r.c = newCacheCap(cap)
+		r.raw = newCacheCap(cap)
 	} else {
-		r.c = oidc.NewCache()
+		r.raw = oidc.NewCache()
 		r.cap = 500
 	}
+	r.c, r.snap = r.raw, hooksOn
 	r.t0 = time.Now()
 	r.withOrd = hooksOn && r.cap <= 16
+	m := M{"op": "new", "cap": r.cap}
+	r.hist = append(r.hist, m)
+	T.emit(m)
+	return r
+}
+
+// newTokenCacheRun: the TokenCache wrapper under test (production capacity; keys are token strings)
+func newTokenCacheRun() *cacheRun {
+	r := &cacheRun{cap: 500, ref: map[string]*refEntry{}, everSet: map[string]bool{}, nextTick: 5 * time.Minute}
+	r.c = tokenCacheAPI{oidc.NewTokenCache()}
+	r.t0 = time.Now()
 	m := M{"op": "new", "cap": r.cap}
 	r.hist = append(r.hist, m)
 	T.emit(m)
@@ -87,8 +126,8 @@ func (r *cacheRun) replay() interface{} {
 }
 
 func (r *cacheRun) obsState(o M) M {
-	if hooksOn {
-		order, items, elems := cacheSnapshot(r.c)
+	if r.snap {
+		order, items, elems := cacheSnapshot(r.raw)
 		o["len"] = len(items)
 		if r.withOrd {
 			o["order"] = order
@@ -136,8 +175,8 @@ func (r *cacheRun) set(k string, v int, ttl time.Duration) {
 	var before []string
 	_, existed := r.ref[k]
 	r.everSet[k] = true
-	if hooksOn {
-		before, _, _ = cacheSnapshot(r.c)
+	if r.snap {
+		before, _, _ = cacheSnapshot(r.raw)
 	}
 	{
 		live := 0
@@ -155,7 +194,7 @@ func (r *cacheRun) set(k string, v int, ttl time.Duration) {
 	r.record(M{"op": "set", "now": now, "k": k, "v": v, "ttl": int64(ttl), "obs": o})
 	// --- C13 eviction oracle (needs the snapshot hook): a new key into a full cache removes exactly one entry,
 	// an expired one if any exists, otherwise the least recently used
-	if hooksOn && !existed {
+	if r.snap && !existed {
 		inBefore := false
 		for _, b := range before {
 			if b == k {
@@ -163,7 +202,7 @@ func (r *cacheRun) set(k string, v int, ttl time.Duration) {
 			}
 		}
 		if !inBefore && len(before) >= r.cap {
-			after, _, _ := cacheSnapshot(r.c)
+			after, _, _ := cacheSnapshot(r.raw)
 			as := map[string]bool{}
 			for _, a := range after {
 				as[a] = true
@@ -208,9 +247,9 @@ func (r *cacheRun) set(k string, v int, ttl time.Duration) {
 		}
 	}
 	// reference bookkeeping
-	if hooksOn {
+	if r.snap {
 		// mirror removals caused by eviction so that later misses are judged correctly
-		after, _, _ := cacheSnapshot(r.c)
+		after, _, _ := cacheSnapshot(r.raw)
 		as := map[string]bool{}
 		for _, a := range after {
 			as[a] = true
@@ -302,14 +341,14 @@ func (r *cacheRun) clean() {
 	now := r.now()
 	r.opIdx++
 	var before []string
-	if hooksOn {
-		before, _, _ = cacheSnapshot(r.c)
+	if r.snap {
+		before, _, _ = cacheSnapshot(r.raw)
 	}
 	r.c.Cleanup()
 	o := r.obsState(M{"r": "ok"})
 	r.record(M{"op": "clean", "now": now, "obs": o})
-	if hooksOn {
-		after, _, _ := cacheSnapshot(r.c)
+	if r.snap {
+		after, _, _ := cacheSnapshot(r.raw)
 		as := map[string]bool{}
 		for _, a := range after {
 			as[a] = true
@@ -484,7 +523,42 @@ func familyCache(t *testing.T) {
 					r.get(fmt.Sprintf("k%d", k))
 				}
 				r.close()
-			case 5: // uniform random mix on the production capacity with auto-cleanup ticks
+			case 5:
+				if h%12 == 11 {
+					// the TokenCache wrapper is a cache keyed by the token string: keys shaped like compact JWTs that share their
+					// header, their payload or their signature segment with one another, next to keys without dots
+					r := newTokenCacheRun()
+					T.stat("cache.family.token-cache")
+					segs := []string{"eyJhbGciOiJSUzI1NiJ9", "eyJzdWIiOiJhIn0", "eyJzdWIiOiJiIn0", "c2lnLTE", "c2lnLTI", ""}
+					var keys []string
+					for i := 0; i < 14; i++ {
+						switch rng.Intn(5) {
+						case 0:
+							keys = append(keys, fmt.Sprintf("opaque-%d", rng.Intn(4)))
+						case 1:
+							keys = append(keys, segs[rng.Intn(len(segs))]+"."+segs[rng.Intn(len(segs))])
+						default:
+							keys = append(keys, segs[rng.Intn(len(segs))]+"."+segs[rng.Intn(len(segs))]+"."+segs[rng.Intn(len(segs))])
+						}
+					}
+					for i := 0; i < T.size(200, 500); i++ {
+						r.sleep([]time.Duration{0, 1, time.Duration(rng.Intn(3000)) * time.Millisecond, time.Duration(rng.Intn(90)) * time.Second}[rng.Intn(4)])
+						k := keys[rng.Intn(len(keys))]
+						switch p := rng.Intn(100); {
+						case p < 40:
+							r.set(k, r.opIdx+1, []time.Duration{-1, 0, time.Second, 30 * time.Second, 10 * time.Minute, time.Hour}[rng.Intn(6)])
+						case p < 88:
+							r.get(k)
+						case p < 96:
+							r.del(k)
+						default:
+							r.clean()
+						}
+					}
+					r.close()
+					break
+				}
+				// uniform random mix on the production capacity with auto-cleanup ticks
 				r := newCacheRun(500)
 				T.stat("cache.family.mix500")
 				keyspace := []int{8, 40, 520, 700}[rng.Intn(4)]
